@@ -271,7 +271,7 @@ LoopBoxes:
 				if ok, parsed := traf.ContainsSencBox(); ok && !parsed {
 					isEncrypted := true
 					defaultIVSize := byte(0) // Should get this from tenc in sinf
-					if f.Moov != nil {
+					if f.Moov != nil && traf.Tfhd != nil {
 						trackID := traf.Tfhd.TrackID
 						isEncrypted = f.Moov.IsEncrypted(trackID)
 						sinf := f.Moov.GetSinf(trackID)
